@@ -18,7 +18,7 @@ for f in sys.argv[1:]:
 os.makedirs(OUT, exist_ok=True)
 rows = []
 for grp in sorted(os.listdir(ST)):
-    if grp == "R" or not os.path.isdir(os.path.join(ST, grp)):
+    if grp in ("R", "Z") or not os.path.isdir(os.path.join(ST, grp)):
         continue
     for m in sorted(os.listdir(os.path.join(ST, grp))):
         d = os.path.join(ST, grp, m)
@@ -53,7 +53,7 @@ for grp in sorted(os.listdir(ST)):
         json.dump(meta_out, open(os.path.join(o, "meta.json"), "w"), indent=1)
         rows.append((sid, meta.get("property"), row, (meta.get("summary") or "")[:90]))
 with open(os.path.join(OUT, "MATRIX.md"), "w") as f:
-    f.write("# Seeded changes x quick checks\n\nChecks as of /verif commit %s (tools/matrix.sh through `vp run` snapshots).\n\n" % os.environ.get("MATRIX_COMMIT", "(see git log)") + "V = VIOLATION with a failing input as replay; d = VIOLATION ... no-failing-input-found (correspondence no longer checks, no failing input found); "
+    f.write("# Seeded changes x quick checks\n\nFull rows were produced by tools/matrix.sh in `vp run` snapshots of /verif taken while the checks were still being strengthened (an off-target cell may predate a later strengthening); the cell of the property each change was written against - and of the neighbouring property named in its meta.json `also_check`, where the alarm belongs to that property - and every harmless row were re-run at /verif commit %s (tools/final_targets.sh, tools/matrix.sh).\n\n" % os.environ.get("MATRIX_COMMIT", "(see git log)") + "V = VIOLATION with a failing input as replay; d = VIOLATION ... no-failing-input-found (correspondence no longer checks, no failing input found); "
             ". = exit 0; blank = not run. The column 'breaks' is the property the change was written against.\n\n")
     f.write("| seed | breaks | " + " | ".join(p[1:] for p in PROPS) + " | change |\n|---|---|" + "---|" * len(PROPS) + "---|\n")
     for sid, prop, row, summ in rows:
